@@ -9,6 +9,7 @@ import (
 	"bytes"
 	"encoding/json"
 	"fmt"
+	"runtime/debug"
 	"sort"
 	"strings"
 	"sync"
@@ -31,7 +32,7 @@ type scenario struct {
 type rec struct {
 	hist []int
 	b    []byte
-	raw  string // un-normalised dump of the state itself
+	fp   uint64 // fingerprint of the state's dump (vacuity counters only)
 }
 
 type pre struct {
@@ -84,7 +85,7 @@ func diffKeys(a, b fsmx.Dump) string {
 type stateCtx struct {
 	d    fsmx.Dump
 	key  string
-	raw  string
+	fp   uint64 // fingerprint of the raw dump (vacuity counter only)
 	b    []byte // immediate Snapshot+Persist in this state (nil if that failed)
 	rd   fsmx.Dump
 	rkey string // canonical state of b restored into a fresh FSM ("" if snapshot/restore failed)
@@ -108,7 +109,7 @@ func stateOracles(sc *scenario, hist []int) (map[string]bool, *stateCtx) {
 	out := map[string]bool{}
 	f := fsmx.Replay(sc.alpha, sc.seed, hist)
 	d, key := fsmx.Canon(f)
-	ctx := &stateCtx{d: d, key: key, raw: fsmx.Raw(f)}
+	ctx := &stateCtx{d: d, key: key, fp: fsmx.Fingerprint(f)}
 	for _, mm := range fsmx.IndexMismatches(d) {
 		out["index-consistency|"+strings.SplitN(mm, ":", 2)[0]] = true
 	}
@@ -275,7 +276,7 @@ func pointInTime(sc *scenario, hist, cont []int, ctx *stateCtx) string {
 		idx++
 		sc.alpha[c].Apply(f, idx)
 	}
-	return judgeLate(ctx, sn, fsmx.Raw(f) != ctx.raw)
+	return judgeLate(ctx, sn, fsmx.Fingerprint(f) != ctx.fp)
 }
 
 type pitCase struct {
@@ -310,7 +311,7 @@ func reportPit(sc *scenario, class string, hist, cont []int) {
 type target struct {
 	names []string
 	cmds  []fsmx.Cmd
-	raw   string // dump of the target before the restore (vacuity count: how often it held another state)
+	fp    uint64 // fingerprint of the target before the restore (vacuity count: how often it held another state)
 }
 
 func mkTarget(sc *scenario, hist []int) target {
@@ -354,7 +355,7 @@ func richTargets() []target {
 	for i := range out {
 		fsmx.Prepare(out[i].cmds)
 		f := fsmx.Build(out[i].cmds)
-		out[i].raw = fsmx.Raw(f)
+		out[i].fp = fsmx.Fingerprint(f)
 		d, _ := fsmx.Canon(f)
 		want := []string{"nodes", "primaryWriterID", "activeCompactorID", "files", "tokens"}
 		if i == 1 {
@@ -460,6 +461,7 @@ func ontoFails(sc *scenario, hist []int, tcmds []fsmx.Cmd, class string) bool {
 }
 
 func main() {
+	debug.SetGCPercent(400) // allocation-heavy (JSON in Apply/Restore/dump), small live heap: trade memory for GC time
 	run := ev.Start("C22", "model_checking")
 	quick := run.Quick()
 	nodes := fsmx.NodeCmds([]string{"n1"}, map[string]string{"n1": "writer"})
@@ -498,7 +500,7 @@ func main() {
 				}
 				if ctx.b != nil {
 					mu.Lock()
-					sc.recs[len(hist)] = append(sc.recs[len(hist)], rec{hist: append([]int{}, hist...), b: ctx.b, raw: ctx.raw})
+					sc.recs[len(hist)] = append(sc.recs[len(hist)], rec{hist: append([]int{}, hist...), b: ctx.b, fp: ctx.fp})
 					mu.Unlock()
 				}
 				if len(hist) == sc.depth {
@@ -545,7 +547,7 @@ func main() {
 			n := len(sc.alpha)
 			ok := fsmx.ParallelFor(len(ss)*n, run.TimeUp, func(i int) {
 				s, c1 := ss[i/n], i%n
-				ctx := &stateCtx{b: s.b, raw: s.raw}
+				ctx := &stateCtx{b: s.b, fp: s.fp}
 				for c2 := 0; c2 < n; c2++ {
 					if cl := pointInTime(sc, s.hist, []int{c1, c2}, ctx); cl != "" {
 						reportPit(sc, cl, s.hist, []int{c1, c2})
@@ -584,7 +586,7 @@ func main() {
 			var l []target
 			for _, r := range sc.recs[d] {
 				t := mkTarget(sc, r.hist)
-				t.raw = r.raw
+				t.fp = r.fp
 				l = append(l, t)
 			}
 			tg = append(tg, l)
@@ -605,7 +607,7 @@ func main() {
 			var n, differs int64
 			try := func(t target) {
 				n++
-				if t.raw != s.raw {
+				if t.fp != s.fp {
 					differs++
 				}
 				for _, cl := range restoreOnto(s.b, ref, t.cmds) {
@@ -618,7 +620,9 @@ func main() {
 				}
 			}
 			for k := td + 1; k < len(s.hist); k++ { // the lagging follower: deeper proper prefixes of s's own history
-				try(mkTarget(sc, s.hist[:k]))
+				t := mkTarget(sc, s.hist[:k])
+				t.fp = fsmx.Fingerprint(fsmx.Build(t.cmds))
+				try(t)
 			}
 			for _, t := range rich {
 				try(t)
@@ -690,7 +694,7 @@ func main() {
 			seedNote = "seed=hierarchy;"
 		}
 		sNames := fsmx.Names(sc.alpha, minH)
-		run.Violate(class+"|snapshot-of="+seedNote+strings.Join(sNames, ";")+"|onto="+ontoName(cmdNames(minT)),
+		run.Violate(class+"|snapshot-of="+snapName(seedNote, sNames)+"|onto="+ontoName(cmdNames(minT)),
 			"the snapshot of the first history, restored onto an FSM that had already applied the second history, is not the state the snapshot was taken from (Restore into a fresh FSM is)",
 			map[string]any{"scenario": sc.name, "seed": cmdNames(sc.seed), "snapshot_of": sNames, "restored_onto": cmdNames(minT),
 				"found_at": map[string]any{"snapshot_of": fsmx.Names(sc.alpha, c.hist), "restored_onto": c.tgt.names}})
@@ -719,6 +723,13 @@ func ontoName(names []string) string {
 		return "<fresh FSM>"
 	}
 	return strings.Join(names, ";")
+}
+
+func snapName(seedNote string, names []string) string {
+	if seedNote == "" && len(names) == 0 {
+		return "<empty state>"
+	}
+	return seedNote + strings.Join(names, ";")
 }
 
 func pick2(q bool, a, b string) string {
